@@ -324,7 +324,7 @@ def flag_threading(ctx, res):
 
             def step(s, st, ev, e, node):
                 s.sites.append((e, st, node.id))
-                return st
+                return st | {("SAW", e.attr)}
         fl = F(mod, fn, key)
         fl.run(frozenset())
         for e, facts, nid in fl.sites:
@@ -339,6 +339,31 @@ def flag_threading(ctx, res):
                    key + ":next-both", mod.loc(fn),
                    "the continuation to the next listener must both register "
                    "and unregister")
+        # deferred registration postpones the hook-up only while nothing has
+        # been assigned: every exit that skips the continuation has decided
+        # both `self.deferred` and `<name> not in <object>.__dict__`
+        g = fl.cfg
+        namep = ps[2]
+        skipped = []
+        for st in fl.states[g.exit.id]:
+            if ("F", rmp) not in st:
+                continue
+            if any(f[0] == "SAW" for f in st):
+                continue
+            deferred = ("T", "self.deferred") in st
+            absent = ("F", f"{namep} in {ps[1]}.__dict__") in st or \
+                ("T", f"{namep} not in {ps[1]}.__dict__") in st
+            if not (deferred and absent):
+                skipped.append(st)
+        res.oblige(not skipped, key + ":deferred-only-when-unassigned",
+                   mod.loc(fn),
+                   f"{meth} can return without registering the next listener "
+                   f"on the current value although the value is already "
+                   f"assigned (facts: "
+                   f"{sorted(str(f) for f in (skipped[0] if skipped else []))[:6]}"
+                   f"): a deferred (decorator / post_init) listener is then "
+                   f"never hooked to items that were set before it was "
+                   f"installed - `_register_simple` registers in that case")
     # register()/unregister() bookkeeping
     reg = cls.methods["register"]
     unreg = cls.methods["unregister"]
